@@ -7,9 +7,21 @@ V = os.path.dirname(os.path.dirname(os.path.abspath(__file__)))
 sys.path.insert(0, V)
 from engine import facts, model, inline
 ids = set()
+adts = set()
+prints = {}
 for cfg in facts.CONFIGS:
     d, meta = facts.build(cfg)
     prog = model.Program(facts.load_raw(d))
     ids |= inline.all_ids(prog)
-json.dump(sorted(ids), open(inline.KNOWN_FILE, "w"), indent=0)
-print(len(ids), "known functions")
+    adts |= {k for k in prog.adts if k.split("::")[0] in inline.ANALYSED}
+    for k, f in prog.fns.items():
+        if f.info["kind"] == "Closure" or "{closure#" in k or f.info["crate"] not in ("marginfi", "marginfi_type_crate") or "::tests::" in k:
+            continue
+        if k.startswith("marginfi::__private") or k.startswith("marginfi::instruction::") or "__client_accounts" in k or "__cpi_client_accounts" in k:
+            continue
+        tr = f.info.get("trait")
+        if tr and tr.split("::")[0] not in inline.ANALYSED:
+            continue
+        prints.setdefault(inline.fn_id(f), inline.fingerprint(f))
+json.dump({"fns": sorted(ids), "adts": sorted(adts), "prints": prints}, open(inline.KNOWN_FILE, "w"), indent=0, sort_keys=True)
+print(len(ids), "known functions,", len(adts), "known ADTs")
